@@ -461,6 +461,7 @@ def check_property(pid, spec, tier, replay=None, keep=False):
     violation = None
     undecided = []
     unreproduced = []
+    finding_reproduced = {}
     rc = 0
     try:
         units = spec["units"]
@@ -470,6 +471,26 @@ def check_property(pid, spec, tier, replay=None, keep=False):
         if replay:
             ff = json.load(open(replay))
             units = [u for u in units if u["test"] == ff.get("test")] or units
+        # probe of every listed open finding: its saved case is executed with the exclusion switched off. Only a
+        # finding that still reproduces is announced as KNOWN-FINDING; a different failure of that case is a violation
+        if not replay:
+            import glob
+            for fpk, _what in known:
+                for fpath in sorted(glob.glob(os.path.join(VERIF, "findings", pid + "-*.json"))):
+                    try:
+                        ff = json.load(open(fpath))
+                    except Exception:
+                        continue
+                    if ff.get("fingerprint") != fpk:
+                        continue
+                    for uidx, unit in enumerate(spec["units"]):
+                        if unit["test"] != ff.get("test") or tier not in unit:
+                            continue
+                        pr = run_unit(work, pid, 3000 + uidx, unit, tier, base_seed, [], replay=fpath, repeat=unit.get("replay_repeat", 1))
+                        if pr.violation and pr.violation[1] == fpk:
+                            finding_reproduced[fpk] = fpath
+                        elif pr.violation and violation is None:
+                            violation = (fpath, pr.violation[1], pr.violation[2])
         # seconds-long regression tier: every saved case of this property is executed first
         if not replay:
             import glob
@@ -553,6 +574,7 @@ def check_property(pid, spec, tier, replay=None, keep=False):
         "per_test": per_test,
         "inconclusive_cases": inconc,
         "known_finding_hits": known_hits,
+        "known_findings_reproduced_from_saved_case": sorted(finding_reproduced),
     }
     if unreproduced:
         cov["unreproduced_wallclock_failures"] = unreproduced
@@ -579,7 +601,10 @@ def check_property(pid, spec, tier, replay=None, keep=False):
         os.replace(evidence_path + ".tmp", evidence_path)
 
     for fp, what in known:
-        print("KNOWN-FINDING: property=%s %s [%s; reproduced %d times in this run]" % (pid, what, fp, known_hits.get(fp, 0)))
+        if replay or fp in finding_reproduced or known_hits.get(fp, 0) > 0:
+            print("KNOWN-FINDING: property=%s %s [%s; saved case reproduced: %s; met %d more times by generated cases]" % (pid, what, fp, "yes" if fp in finding_reproduced else "not probed", known_hits.get(fp, 0)))
+        else:
+            print("note: the listed finding %s did not reproduce from its saved case on this tree and was not met by any generated case" % fp)
     if violation:
         print("violation detail: [%s] %s" % (violation[1], violation[2][:3000]))
         print("VIOLATION property=%s replay=%s" % (pid, violation[0]))
